@@ -22,6 +22,9 @@ def jobs(tier):
     # ordering disabled: own statements only; real file read back; concurrent flusher
     add("c06.ub", 2, grace=0, adv=0, a=2, b=1, file=1, flushint_ms=200)
     add("c06.ub", 1 if q else 2, grace=0, adv=0, a=1, b=1, f3=1, flushint_ms=200)
+    # no virtual time passes except while a caller sleeps in flush_log (longer than the grace period): a cut-off taken once
+    # per read pass keeps the order, one that moves inside the pass does not
+    add("c06.ub", 2, grace=1, adv=0, a=1, b=2, sleepadv_ns=2000, sync=0)
     # each logger lists the shared sink first and a sink of its own after it: every sink of the logger is written and flushed
     add("c06.ub", 2, grace=0, adv=0, a=1, b=1, layout=1, flushint_ms=200)
     if not q:
